@@ -146,4 +146,18 @@ CLAIMS["C11"] = {
     "design_ref": "DESIGN.md §4 C11",
 }
 
+CLAIMS["C18"] = {
+    "technique": "finite-table agreement and decision-table extraction over resolved MIR; field-writer analysis",
+    "text": "Decides the finite, table-shaped part of the statement: Role::next_input_stream agrees with the constant slices of "
+            "Role::input_streams / output_streams, with the stream-type predicates and with the specification (R18.1); set_stream rejects "
+            "before any field write and only on the `Less` verdict, a different stream demotes Stream->Skip under its guard, discards "
+            "buffered data and assigns, the same stream touches nothing (R18.2); the header dispatch skips earlier streams, delivers the "
+            "active one, holds back its empty record and any later stream as end-of-stream, with cmp(role, header type, active stream) "
+            "(R18.3); the active-stream field is written only by set_stream and initialised to the role's first stream (R18.4); the async "
+            "layer feeds the verdict to expect (R18.5). Does NOT decide the loop inside cmp_input_streams (the pinned stream_order test "
+            "enumerates its 3x2x3 table).",
+    "note": "spec/fastcgi.json role tables are hand-written from the FastCGI specification section 6.",
+    "design_ref": "DESIGN.md §4 C18",
+}
+
 PENDING_REASON = "rules for this property are not built yet (build in progress; DESIGN.md §7 gives the order)"
